@@ -1,4 +1,5 @@
 import PhysisModel.Proofs.C17
+import PhysisModel.Proofs.C17Patch
 /-!
 # C17 — untrusted user and launcher files never crash the caller
 
@@ -91,5 +92,63 @@ theorem c17_patchlist_write_unguarded_witness :
 /-- pinned commit: two lengths that sum beyond `i64::MAX` panic on write -/
 theorem c17_patchlist_write_unguarded_overflow :
     (Patchlist.toString false .boot [] [] [⟨[], [], 0, 2 ^ 63 - 1, 0, []⟩, ⟨[], [], 0, 1, 0, []⟩]).faults := by decide
+
+/-! ### ZiPatch::apply — for every inflate behaviour, every file-size limit, every start tree -/
+
+/-- no panic on any patch bytes: no unwrap of a missing target info, no arithmetic on block counts
+and lengths that can overflow, no capacity overflow; and the chunk / block loops never exhaust
+their fuel (`Fault.fuel`), i.e. they terminate because every iteration consumes input -/
+theorem c17_apply_total (inflate : Bytes → Nat → Bool) (limit : Nat) (fs : Fs.FS) (b : Bytes) :
+    ¬ (Patch.apply inflate limit fs b).faults :=
+  (Patch.safe_apply inflate limit fs b).not_faults
+
+/-- **A patch that fails part-way reports an error rather than success**: the model returns `Ok`
+only from the `EndOfFile` arm — a stream that ends, fails to parse, or hits an I/O error before an
+`EOF_` chunk yields `Err` (the ordinary failure), never `Ok`. -/
+theorem c17_patch_error (inflate : Bytes → Nat → Bool) (limit : Nat) (fs : Fs.FS) (b : Bytes)
+    (last : Patch.Cmd) (fs' : Fs.FS) (h : (Patch.apply inflate limit fs b).res = .ok (last, fs')) :
+    last = Patch.Cmd.eof := by
+  have hs := (Patch.safe_apply inflate limit fs b).2
+  rw [h] at hs
+  exact hs
+
+/-- Full statement (not proved): `(apply inflate limit fs b).peak ≤ 64·|b| + 2^24`.
+It is **false at the pinned commit + fixes** — recorded finding `patch-block-decompressed-alloc`: a
+compressed block allocates the `decompressed_length` (< 2^31) its header declares and the AddFile
+loop accumulates block data up to the declared `file_size`.  Proved: every request stays below
+`64·|b| + 2^24 + 2^67`, i.e. no request can overflow `usize` / `isize` (no capacity-overflow panic);
+all sites whose size does *not* come from a block header (names, paths, AddData payloads, header
+data) are input-proportional by `SafePD.vecU8Bounded`.  The real heap peak of every generated case is
+measured by the counting allocator in the correspondence. -/
+theorem c17_apply_alloc_partial (inflate : Bytes → Nat → Bool) (limit : Nat) (fs : Fs.FS) (b : Bytes) :
+    (Patch.apply inflate limit fs b).peak ≤ 64 * b.length + 2 ^ 24 + 2 ^ 67 :=
+  (Patch.safe_apply inflate limit fs b).peak_le
+
+/-- the finding's witness: a 16-byte block header declaring 2^31 − 1 decompressed bytes makes the
+model request that much for a patch of a few hundred bytes -/
+theorem c17_apply_alloc_witness :
+    ¬ (Patch.readDataBlock (fun _ _ => true)
+        (16 :: 0 :: 0 :: 0 :: 0 :: 0 :: 0 :: 0 :: 5 :: 0 :: 0 :: 0 :: 0xFF :: 0xFF :: 0xFF :: 0x7F :: List.replicate 112 0)
+        ⟨16 :: 0 :: 0 :: 0 :: 0 :: 0 :: 0 :: 0 :: 5 :: 0 :: 0 :: 0 :: 0xFF :: 0xFF :: 0xFF :: 0x7F :: List.replicate 112 0, 0⟩).peak
+      ≤ 64 * 128 + 2 ^ 24 := by decide +kernel
+
+/-! ### execlookup::extract_frontier_url, BootData::from_existing -/
+theorem c17_execlookup_total (file : Option Bytes) : ¬ (Exec.extractFrontierUrl true file).faults :=
+  (Exec.safe_extract file).not_faults
+theorem c17_execlookup_alloc (file : Bytes) :
+    (Exec.extractFrontierUrl true (some file)).peak ≤ 64 * file.length + 2 ^ 24 :=
+  (Exec.safe_extract (some file)).peak_le
+/-- pinned commit: a missing launcher panics (`fs::read(..).unwrap()`) -/
+theorem c17_execlookup_unguarded_witness : (Exec.extractFrontierUrl false none).faults := by decide
+theorem c17_bootdata_total (d : Bool) (ver : Option Bytes) : ¬ (Exec.bootData d ver).faults :=
+  (Exec.safe_bootData d ver).not_faults
+
+/-- non-vacuity of `c17_patch_error`: header + `EOF_` chunk is accepted (`Ok`), the same stream
+without the `EOF_` chunk is `Err` -/
+example : (Patch.apply (fun _ _ => false) 0 ⟨.dir, [], []⟩
+    [0x91, 0x5A, 0x49, 0x50, 0x41, 0x54, 0x43, 0x48, 0x0D, 0x0A, 0x1A, 0x0A, 0, 0, 0, 0, 0x45, 0x4F, 0x46, 0x5F]).res.isOk
+      = true := by decide +kernel
+example : (Patch.apply (fun _ _ => false) 0 ⟨.dir, [], []⟩
+    [0x91, 0x5A, 0x49, 0x50, 0x41, 0x54, 0x43, 0x48, 0x0D, 0x0A, 0x1A, 0x0A]).res.isOk = false := by decide +kernel
 
 end Physis.C17
